@@ -34,45 +34,45 @@ namespace PM
 
 /-! ### close_fragment -/
 
-/-- `close_fragment(fragment, depth, old_open, new_open, parent)`.  `parentTy` is the type of
-    `parent` (`none` = Python `None`: only at depth 0, where `depth > new_open` is never true).
+/-- the block `if depth > new_open:` of `close_fragment`:
+
+        match = parent.content_match_at(0)
+        start = match.fill_before(fragment).append(fragment)            # assert … is not None
+        fragment = start.append(match.match_fragment(start).fill_before(Fragment.empty, True))
+
+    `parentTy` is the type of `parent` (`none` = Python `None`: only at depth 0, where
+    `depth > new_open` is never true). -/
+def closeLevel (S : Schema) (parentTy : Option TypeId) (fragment : List Node) : FM (List Node) :=
+  match parentTy with
+  | none => throw .raises
+  | some pt => do
+    let d := S.dfa pt
+    let fill ← fillOpt S d 0 (S.types fragment) false
+    let fill ← liftRaise fill
+    let start := fappend fill fragment
+    let q ← liftRaise (d.run 0 (S.types start))
+    let fill2 ← fillOpt S d q [] true
+    let fill2 ← liftRaise fill2
+    pure (fappend start fill2)
+
+/-- `close_fragment(fragment, depth, old_open, new_open, parent)`:
 
         if depth < old_open:
             first = fragment.first_child                      # assert first is not None
             fragment = fragment.replace_child(0, first.copy(close_fragment(first.content, depth + 1, …, first)))
-        if depth > new_open:
-            match = parent.content_match_at(0)
-            start = match.fill_before(fragment).append(fragment)            # assert … is not None
-            fragment = start.append(match.match_fragment(start).fill_before(Fragment.empty, True))
+        if depth > new_open: …                                 # `closeLevel`
 
-    The argument `n` counts `old_open - depth` (the recursion of the code is on `depth` going up to
-    `old_open`); `depth = oldOpen - n`.  A text / leaf node on the spine has empty content and
+    The first argument counts `old_open - depth` (the recursion of the code is on `depth` going up
+    to `old_open`), so `depth = oldOpen - n`.  A text / leaf node on the spine has empty content and
     `copy` gives the node itself (`Node.withKids`), as in `closeNodeStart`. -/
-def closeFragment (S : Schema) (oldOpen newOpen : Nat) : (n : Nat) → List Node → Option TypeId → FM (List Node)
-  | n, fragment, parentTy => do
-    let depth := oldOpen - n
-    let fragment ←
-      (match n with
-       | 0 => pure fragment
-       | n' + 1 =>
-         match fragment with
-         | [] => throw .raises
-         | first :: rest => do
-           let inner ← closeFragment S oldOpen newOpen n' first.kids (some (S.tyOf first))
-           pure (first.withKids inner :: rest))
-    if newOpen < depth then
-      match parentTy with
-      | none => throw .raises
-      | some pt => do
-        let d := S.dfa pt
-        let fill ← fillOpt S d 0 (S.types fragment) false
-        let fill ← liftRaise fill
-        let start := fappend fill fragment
-        let q ← liftRaise (d.run 0 (S.types start))
-        let fill2 ← fillOpt S d q [] true
-        let fill2 ← liftRaise fill2
-        pure (fappend start fill2)
-    else pure fragment
+def closeFragment (S : Schema) (oldOpen newOpen : Nat) : Nat → List Node → Option TypeId → FM (List Node)
+  | 0, fragment, parentTy =>
+    if newOpen < oldOpen then closeLevel S parentTy fragment else pure fragment
+  | _ + 1, [], _ => throw .raises
+  | n + 1, first :: rest, parentTy => do
+    let inner ← closeFragment S oldOpen newOpen n first.kids (some (S.tyOf first))
+    if newOpen < oldOpen - (n + 1) then closeLevel S parentTy (first.withKids inner :: rest)
+    else pure (first.withKids inner :: rest)
 
 /-- `close_fragment(slice.content, 0, slice.open_start, open_depth, None)` -/
 def closeSlice (S : Schema) (sl : Slice) (openDepth : Nat) : FM (List Node) :=
